@@ -162,6 +162,15 @@ def main(argv):
             r = kx.run_kani(scratch, harnesses, jobs=jobs, timeout_s=int(plan.get("harness_timeout_s", 1500)))
             checker_cmds.append(r["cmd"])
             results = r["results"]
+            # a harness without verdict (CBMC killed for memory while running next to others, timeout under load) gets one
+            # more chance on its own before it is reported as undecided
+            retry = [h for h in harnesses if h not in results or results[h]["status"] not in ("ok", "fail")]
+            if retry and len(harnesses) > 1:
+                for h in retry:
+                    r2 = kx.run_kani(scratch, [h], jobs=1, timeout_s=int(plan.get("harness_timeout_s", 1500)) * 2)
+                    if h in r2["results"]:
+                        results[h] = r2["results"][h]
+                        results[h]["retried_alone"] = True
             if not results:
                 undecided.append("kani: no harness results (build failed?): " + r["raw"][-1500:])
             for h in harnesses:
